@@ -288,6 +288,8 @@ pub struct Recovered {
     pub dump: BTreeMap<Vec<u8>, Dumped>,
     pub len: usize,
     pub recovery_events: Vec<Ev>,
+    /// partition invariant of the recovered store (C05): Err(sig, msg) if violated
+    pub partition: Result<(u64, u64), (String, String)>,
 }
 
 /// Open `image` with the real store (recovery runs, read-write), dump it. The store
@@ -316,8 +318,9 @@ pub fn recover_image(image: &[u8], path: &str, version: u32, trace: bool, keep: 
     };
     let dump = storeutil::dump(&store);
     let len = store.len();
+    let partition = crate::engines::layout::check_partition(&store.verif_snapshot(), version, &[]);
     feoxdb::verif::set_thread_now_ns(0);
-    let rec = Recovered { dump, len, recovery_events };
+    let rec = Recovered { dump, len, recovery_events, partition };
     if keep {
         Ok((rec, Some(store)))
     } else {
@@ -554,6 +557,7 @@ pub fn run(args: &Args) -> Report {
     let seen = Arc::new(Mutex::new(HashSet::<u64>::new()));
     let stop = Arc::new(AtomicBool::new(false));
     let idem = mode == "idem";
+    let partition_only = mode == "partition";
     let known = args.known();
     let mut handles = Vec::new();
     for t in 0..threads {
@@ -614,6 +618,18 @@ pub fn run(args: &Args) -> Report {
                             format!("crash image cannot be reopened: {e}"),
                             replay(json!({"m6": indep::scan(&image, None, true).map(|s| s.records.len()).map_err(|e| e)})),
                         );
+                    }
+                    Ok((rec, _)) if partition_only => {
+                        // C05: the store obtained by recovery from any crash image is exactly partitioned
+                        match &rec.partition {
+                            Ok((live, _free)) => {
+                                local.count("recovered_partitions_checked", 1);
+                                if *live > 0 {
+                                    local.nontrivial.insert(h);
+                                }
+                            }
+                            Err((sig, msg)) => local.violation(format!("recovered:{sig}"), format!("store recovered from a crash image violates the space partition: {msg}"), replay(json!(null))),
+                        }
                     }
                     Ok((rec, _)) => match judge(w, &job.recipe, &rec) {
                         Ok(nontrivial) => {
